@@ -46,6 +46,10 @@ class C09(Check):
                         continue
                     out.append({"name": f"N{n}-b{b0}-{b1}-m{size}", "N": n, "b0": b0, "b1": b1, "size": size, "D": 4})
         out.append({"name": "same-beta", "N": 2, "b0": 0.5, "b1": 0.5, "size": None, "D": 4})
+        # multi-step histories on ONE object: weights are inspected, per-particle
+        # fields are re-assigned (as every mutate() does), then the set is resampled
+        for n in ([2] if tier == "quick" else [2, 3]):
+            out.append({"name": f"reassign-N{n}", "N": n, "b0": 0.0, "b1": 0.5, "size": None, "D": 4, "reassign": True})
         return out
 
     def harness(self, cfg):
@@ -59,6 +63,14 @@ class C09(Check):
             ll, lp, lq = sx.sym("ll", N), sx.sym("lp", N), sx.sym("lq", N)
             s = SMCSamples(x=x, log_likelihood=ll, log_prior=lp, log_q=lq, beta=b0, xp=sx, parameters=list(PARAMS2), dtype=sx.float32)
             rng = SymRng(ctx)
+            if cfg.get("reassign"):
+                # look at the weights of this move, then replace the cached densities
+                s.log_weights(b1)
+                s.log_evidence_ratio(b1)
+                ll, lp, lq = sx.sym("ll2", N), sx.sym("lp2", N), sx.sym("lq2", N)
+                s.log_likelihood = ll
+                s.log_prior = lp
+                s.log_q = lq
             out = s.resample(b1, n_samples=size, rng=rng)
             if b1 == b0 and size is None:
                 ctx.prove(out is s, "same_beta_identity")
@@ -97,6 +109,11 @@ class C09(Check):
 
             def runner(env):
                 s2 = _np_pop(env, N, d, b0)
+                if cfg.get("reassign"):
+                    s2.log_weights(b1)
+                    s2.log_likelihood = np.asarray(env_array(env, "ll2", (N,)))
+                    s2.log_prior = np.asarray(env_array(env, "lp2", (N,)))
+                    s2.log_q = np.asarray(env_array(env, "lq2", (N,)))
                 r = ScriptedRng(choices=[[0] * M])
                 s2.resample(b1, n_samples=size, rng=r)
                 return {"p": r.p_seen[0]}
@@ -122,6 +139,9 @@ class C09(Check):
             "lp": env_array(env, "lp", (N,)),
             "lq": env_array(env, "lq", (N,)),
             "idx": idx,
+            "ll2": env_array(env, "ll2", (N,)),
+            "lp2": env_array(env, "lp2", (N,)),
+            "lq2": env_array(env, "lq2", (N,)),
         }
 
     def replay(self, cex):
@@ -136,6 +156,13 @@ class C09(Check):
         bad = []
         with np.errstate(all="ignore"):
             s = SMCSamples(x=x, log_likelihood=ll, log_prior=lp, log_q=lq, beta=b0, parameters=list(PARAMS2))
+            if cfg.get("reassign"):
+                s.log_weights(b1)
+                s.log_evidence_ratio(b1)
+                ll, lp, lq = (np.asarray(cex[k], float) for k in ("ll2", "lp2", "lq2"))
+                if np.all(ll == 0) and np.all(lp == 0) and np.all(lq == 0):
+                    ll = np.arange(N, dtype=float) * 1.7
+                s.log_likelihood, s.log_prior, s.log_q = ll, lp, lq
             idx = [int(i) % N for i in cex["idx"]][:M]
             idx += [0] * (M - len(idx))
             r = ScriptedRng(choices=[idx])
